@@ -275,6 +275,9 @@ func csvCases(thorough bool) []valCase {
 	rowsOf := func(fs []string) []*V {
 		var rows []*V
 		for _, a := range fs {
+			if a == "" {
+				continue // encoding/csv writes a single empty field as an empty line: not representable
+			}
 			rows = append(rows, vArr(vStrLit(a)))
 		}
 		for _, a := range fs {
